@@ -159,14 +159,24 @@ func (ef *Filter) Process(ctx context.Context, e *eventlogger.Event) (*eventlogg
 	if i, ok := e.Payload.(EventWrapperInfo); ok {
 		ef.l.RLock()
 		w, err := NewEventWrapper(ctx, ef.Wrapper, i.EventId())
+		// resolve the salt and info for this event while holding the same
+		// lock, so a rotation during the filtering of the event can't combine
+		// the wrapper derived above with a newer salt or info.
+		salt, info := i.HmacSalt(), i.HmacInfo()
+		if salt == nil {
+			salt = append([]byte{}, ef.HmacSalt...)
+		}
+		if info == nil {
+			info = append([]byte{}, ef.HmacInfo...)
+		}
 		ef.l.RUnlock()
 		if err != nil {
 			return nil, fmt.Errorf("%s: %w", op, err)
 		}
 		optWrapper = w
 		opts = append(opts, WithWrapper(optWrapper))
-		opts = append(opts, WithInfo(i.HmacInfo()))
-		opts = append(opts, WithSalt(i.HmacSalt()))
+		opts = append(opts, WithInfo(info))
+		opts = append(opts, WithSalt(salt))
 	}
 
 	// depending on what filter operations are initialized, a wrapper may or may
